@@ -128,8 +128,17 @@ def eval_discinfo(ts, desc, arch, discs):
     if r[0] != "ok":
         return {"write": "ok", "read": r[1]}
     w2 = call(back.dumps)
-    return {"write": "ok", "read": "ok", "facts": [repr(back.timestamp), back.description, back.arch, back.disc_numbers],
-            "second_write_identical": w2 == w}
+    out = {"write": "ok", "read": "ok", "facts": [repr(back.timestamp), back.description, back.arch, back.disc_numbers],
+           "second_write_identical": w2 == w}
+    # a reader that has read ANOTHER .discinfo before (other arch, other and more disc numbers): a reader may be single-use
+    # (refuse the second file) - but if it reads the file, it must hand out the facts of THAT file and nothing of the earlier one
+    for other in ("1.5\nOther 1\ns390x\n4,5,6,7\n", "1.5\nOther 1\ns390x\nALL\n"):
+        used = pd.DiscInfo()
+        call(used.loads, other)
+        r = call(used.loads, w[1])
+        if r[0] == "ok" and [repr(used.timestamp), used.description, used.arch, used.disc_numbers] != out["facts"]:
+            out["used_reader_facts"] = [repr(used.timestamp), used.description, used.arch, used.disc_numbers]
+    return out
 
 
 def bound(tier):
